@@ -47,9 +47,14 @@ BreakpointClauses(e) ==
 
 (* mg.unordered: create_cooler(ordered=False) from chunks in arbitrary order *)
 UnorderedClauses(e) ==
-  IF e.obs.err # "" THEN << <<"completes", FALSE>> >>
+  LET bits == IF "bits" \in DOMAIN e.case THEN e.case.bits ELSE 64
+      fits == AllFit(AggregateAll(e.case.chunks, e.case.aggs), bits, FALSE)
+  IN
+  IF e.obs.err # "" THEN (IF bits < 64 THEN << <<"neverSilentlyDifferent:errorOnlyIfUnfit", ~fits>> >>
+                          ELSE << <<"completes", FALSE>> >>)
   ELSE
   << <<"equalsAggregate", e.obs.px = AggregateAll(e.case.chunks, e.case.aggs)>>,
+     <<"neverSilentlyDifferent", fits>>,            \* an aggregate that does not fit the value dtype must be an error
      <<"noTempLeft", Len(e.obs.temp_after) = 0>>,
      <<"drift:passStructure", e.obs.two_pass = TwoPass(Len(e.case.chunks), e.case.max_merge)>> >>
   \o CSRClauses(e.obs.raw)
